@@ -181,6 +181,13 @@ func (t *Tty) Read(p []byte) (int, error) {
 	}
 }
 
+// SetStartErr makes Start fail with err (nil: succeed again).
+func (t *Tty) SetStartErr(err error) {
+	t.mu.Lock()
+	t.StartErr = err
+	t.mu.Unlock()
+}
+
 // ErrWrite is what a faulted Write returns.
 var ErrWrite = errors.New("injected tty write error")
 
